@@ -22,7 +22,7 @@ try:
         res['demo_exit_with_change'] = d.returncode
         for p in props:
             env = dict(os.environ, DROOP_REPO=W)
-            c = subprocess.run(['./check', p, '--tier', 'quick'], cwd='/verif', env=env, capture_output=True, text=True, timeout=3000)
+            c = subprocess.run(['./check', p, '--tier', 'quick'], cwd=os.environ.get('VERIF_DIR', '/verif'), env=env, capture_output=True, text=True, timeout=3000)
             out = c.stdout.splitlines()
             viol = [l for l in out if l.startswith('VIOLATION')]
             ref = [l.strip() for l in out if l.strip().startswith(('refuted:', 'bounded monitor fired:'))]
